@@ -570,7 +570,14 @@ def check_keyword_operands(run: Run, m, tt, rule: str) -> None:
         if "args" not in attrs:
             continue
         exprs_ = [searched] + [binds[x.id][0] for x in ast.walk(searched) if isinstance(x, ast.Name) and len(binds.get(x.id, [])) == 1]
-        if any(isinstance(c_, (ast.ListComp, ast.GeneratorExp)) and any(g.ifs and any(isinstance(y, ast.Attribute) and y.attr == "keywords" for y in ast.walk(g.iter)) for g in c_.generators) for e_ in exprs_ for c_ in ast.walk(e_)):
+        filt_ = [g for e_ in exprs_ for c_ in ast.walk(e_) if isinstance(c_, (ast.ListComp, ast.GeneratorExp)) for g in c_.generators if g.ifs and any(isinstance(y, ast.Attribute) and y.attr == "keywords" for y in ast.walk(g.iter))]
+        if filt_:
+            # a filter that looks at the keyword's *name* only leaves out keywords whatever their value is - a lambda too
+            by_name_only = all(isinstance(g.target, ast.Name) and not any(isinstance(y, ast.Attribute) and y.attr == "value" for f_ in g.ifs for y in ast.walk(f_)) and any(isinstance(y, ast.Attribute) and y.attr == "arg" and isinstance(y.value, ast.Name) and y.value.id == g.target.id for f_ in g.ifs for y in ast.walk(f_)) for g in filt_)
+            if by_name_only:
+                n += 1
+                run.fail(rule, pm, stmt_of(t_), f"only the keyword values that pass a test on the keyword's name ({ast.unparse(filt_[0].ifs[0])[:60]}) are searched for a lambda: a lambda given under another name is not counted, the annotation alone types the call and the lambda is never followed", "search every keyword value", key="keyword lambda not counted as a lambda argument")
+                continue
             raise AnalysisError("process_method_call searches only some of the call's keyword values for a lambda (a filtered comprehension over .keywords): which ones cannot be decided here")
         # only the search that decides `full_type_resolution` (another one merely words a warning)
         if not (direct or any(isinstance(x, ast.Name) and x.id in flag_names for k in fed for x in ast.walk(k.value))):
